@@ -196,8 +196,9 @@ def cases(tier):
                 yield Case(f'{conv}:{positive}:{order}:dpos{dpos}:nk{nk}:two{two if isinstance(two, str) else int(two)}:holes{int(holes)}', body,
                            dict(conv=conv, nk=nk, positive=positive, order=order, dpos=dpos, two_depths=two, via='function', holes=holes),
                            patches=depthcommon.patches, max_paths=20000, split=16)
-    for conv, two, positive in (('cf1d', True, 'down'), ('shoc_standard', 'same_dim', 'up'), ('ugrid', True, 'up'), ('cf1d', False, 'up')):
-        if q and conv == 'shoc_standard':
+    for conv, two, positive in (('cf1d', True, 'down'), ('ugrid', 'same_dim', 'up'), ('ugrid', True, 'up'), ('cf1d', False, 'up')):
+        # (SHOC conventions look their depth coordinates up by their fixed names: not exercised through the alias here)
+        if q and two == 'same_dim':
             continue
         yield Case(f'{conv}:{positive}:deep_first:dpos1:nk2:two{two if isinstance(two, str) else int(two)}:holes0:convention', body,
                    dict(conv=conv, nk=2, positive=positive, order='deep_first', dpos=1, two_depths=two, via='convention', holes=False),
